@@ -168,6 +168,10 @@ def run_check(prop, tier, seed, replay=None):
     for k, v in total.observed.items():
         vs = sorted(v, key=lambda x: (str(type(x)), x))
         observed[k] = {"distinct": len(vs), "values": vs if len(vs) <= 40 else vs[:20] + ["..."] + vs[-10:]}
+    if not total.samples:
+        # a monitor's own sample hooks may all have been skipped (e.g. when every shard reported violations early)
+        total.samples.append({"note": "no per-case sample was recorded by the monitor on this run", "sub_monitor_counts": dict(sorted(total.counts.items())[:12]),
+                              "first_violation": (total.violations[0]["what"][:300] if total.violations else None)})
     cov = {
         "evaluations": total.evaluations,
         "distinct_nontrivial": len(total.nontrivial),
